@@ -50,6 +50,14 @@ C02_OneNotification ==
 C02_ClosedOnce == CleanFor("C02") => (S.closed = Terminated(S) /\ S.cleaned = (IF Terminated(S) THEN 1 ELSE 0))
 C02_TaskReturns == (CleanFor("C02") /\ Quiescent /\ Terminated(S)) => S.task.pc = "done"
 
+\* a process that could not be constructed does not exist: the failure reached the caller of the constructor, and only
+\* a failure raised while the initial state was being entered does that
+C03_Construction ==
+  /\ ~S.born <=> (S.log # <<>> /\ S.log[Len(S.log)][1] = "ctor-raise")
+  /\ ~S.born => (ready = <<>> /\ S.st \in {"NONE", "CREATED"} /\ S.fut.st = "pending" /\ ~S.closed
+                  /\ \E i \in 1..Len(S.log) : S.log[i][1] = "fault" /\ S.log[i][4] = S.log[Len(S.log)][2])
+  /\ S.born => S.st # "NONE"
+
 (* ---- C03 (part): nothing escapes into the event loop, no half transition --------------------- *)
 C03_TaskNeverFails == CleanFor("C03") => S.task.pc # "failed"
 C03_NoCallbackEscapes == CleanFor("C03") => \A i \in 1..Len(S.log) : S.log[i][1] # "cbtaskfailed"
@@ -97,7 +105,7 @@ RefRun(s, rdy, fuel) ==
                            THEN LET r == Resume(s, CHOOSE v \in ResumeVals : TRUE) IN RefRun(Flush(r.s), r.s.sched, fuel - 1)
                            ELSE s)
   ELSE LET s1 == Handle(s, Head(rdy)) IN RefRun(Flush(s1), Tail(rdy) \o s1.sched, fuel - 1)
-Ref == RefRun(InitS(S.pi, S.pl), <<"task">>, 100)
+Ref == IF S.born THEN RefRun(InitS(S.pi, S.pl), <<"task">>, 100) ELSE InitS(S.pi, S.pl)
 
 IsPrefixOf(a, b) == Len(a) <= Len(b) /\ SubSeq(b, 1, Len(a)) = a
 OnlyPausePlayResume == Alphabet \subseteq {"pause", "play", "resume"}
@@ -144,7 +152,7 @@ BcastFaults(s) == SelectSeq(s.log, LAMBDA e : e[1] = "fault" /\ e[2] = "bcast")
 \* each completed transition is announced exactly once and in order (state_changed.<from>.<to>, sent by the pid);
 \* checked on behaviours without an injected broadcast failure
 C16_AnnouncedOnceInOrder ==
-  (S.comm /\ BcastFaults(S) = <<>> /\ "D11" \notin S.dev) =>
+  (S.comm /\ S.born /\ BcastFaults(S) = <<>> /\ "D11" \notin S.dev) =>
      LET a == Announced(S) e == Entered(S) IN
        /\ Len(a) = Len(e) + 1 /\ a[1][3] = None /\ a[1][4] = "CREATED"
        /\ \A i \in 1..Len(e) : a[i + 1][3] = e[i][2] /\ a[i + 1][4] = e[i][3]
